@@ -14,6 +14,7 @@ evidence, replay files.
 import fcntl
 import hashlib
 import importlib
+import importlib.util
 import json
 import os
 import random
@@ -273,7 +274,10 @@ def run_gens(names):
         if not os.path.exists(path):
             continue
         try:
-            mod = importlib.import_module(name)
+            # load by path under a distinct name: harness/cNN.py is already imported as "cNN"
+            spec = importlib.util.spec_from_file_location("gen_" + name, path)
+            mod = importlib.util.module_from_spec(spec)
+            spec.loader.exec_module(mod)
             files = mod.generate(REPO)
             for fn, text in files.items():
                 write_if_changed(os.path.join(COQ, "Gen", fn), text)
